@@ -6,7 +6,12 @@
        received on the admin socket, the resulting Backend.Endpoints (every field);
      - per re-created host: the command lines (set ssl cert / commit ssl cert);
      - alignSlots on the untouched backends when a reload happens;
-     - apply_cmd vs the fake: the fake's servers after the commands it executed;
+     - apply_cmd vs the fake: the fake's servers after the commands it executed. The fake keeps
+       HAProxy's process generations apart: a reload starts a new generation that loads the files
+       and accepts the new admin connections, the former one keeps serving the connections it had
+       accepted (soft stop) on its own state. What is observed here (bc_before / bc_after, and by
+       the harness oracle) is always the LISTENING generation; a command executed by a former
+       generation counts as not executed (bc_executed = false);
      - load vs the template + the fake's parser: the servers parsed from the files written. *)
 From Coq Require Export List String Bool ZArith NArith.
 From HI Require Export Model.Dyn.
